@@ -330,6 +330,7 @@ func Main(args []string) int {
 	actsFile := fs.String("acts", "", "file with the action-instance set printed by MC_Harbor (T line); default: built-in set")
 	sweepFile := fs.String("sweep", "", "file with behaviours of MC_Sweep (T lines) to replay on real vaults")
 	sweepMax := fs.Int("sweepmax", 40, "max behaviours replayed from the sweep file")
+	esm := fs.Bool("esm", false, "include the emergency-shutdown exploration and ESM driver actions")
 	fs.Parse(args)
 	lg := &sim.Log{}
 	rng := sim.NewRng(*seed)
@@ -367,6 +368,9 @@ func Main(args []string) int {
 	}
 	if *depth > 0 {
 		exploreV1(lg, *seed, *depth+1, *maxNodes/2)
+		if *esm {
+			exploreEsm(lg, *seed, *depth+3, *maxNodes/2)
+		}
 	}
 	if *sweepFile != "" {
 		n, err := sweepReplay(lg, *sweepFile, *sweepMax, *seed)
@@ -451,6 +455,7 @@ func explore(lg *sim.Log, rng *sim.Rng, seed int64, depth, maxNodes int, actsFil
 		{A: "Draw", U: "u2", P: p1, V: 1, X: 1}, {A: "DepositDraw", U: "u1", P: p1, V: 1, X: 6},
 		{A: "SCreate", U: "u2", P: p3, X: 20}, {A: "SDeposit", U: "u1", P: p3, V: 1, X: 30}, {A: "SWithdraw", U: "u2", P: p3, V: 1, X: 2},
 		{A: "Price", D: "ucm", Y: 1, On: true}, {A: "Price", D: "ucm", Y: 2, On: true}, {A: "Price", D: "ucm", Y: 2, On: false},
+		{A: "V1Liquidate", U: "u2", P: p1, V: 1}, {A: "V1Liquidate", U: "u1", P: p1, V: 2},
 	}
 	if actsFile != "" {
 		ma, err := modelActs(actsFile)
@@ -461,7 +466,7 @@ func explore(lg *sim.Log, rng *sim.Rng, seed int64, depth, maxNodes int, actsFil
 	}
 	// beyond the vault model: block hooks, liquidation and bids are explored on the same branches (monitored, Conf_Block)
 	acts = append(acts, Act{A: "Block", Y: 5}, Act{A: "Liquidate", U: "u2", V: 1}, Act{A: "Bid", U: "u2", V: 1, D: "ust", X: 20}, Act{A: "Bid", U: "u1", V: 1, D: "ust", X: 100},
-		Act{A: "V1Liquidate", U: "u2", V: 1}, Act{A: "V1Bid", U: "u2", V: 1, D: "ucm", X: 10}, Act{A: "V1Sweep"}, Act{A: "V1Tick"})
+		Act{A: "V1Bid", U: "u2", V: 1, D: "ucm", X: 10}, Act{A: "V1Sweep"}, Act{A: "V1Tick"})
 	seen := map[string]bool{digestOf(w0.Project()): true}
 	type item struct {
 		w    *World
@@ -543,4 +548,67 @@ func exploreV1(lg *sim.Log, seed int64, depth, maxNodes int) {
 			}
 		}
 	}
+}
+
+// bfs explores all sequences of `acts` up to `depth` from (w0, node par) on CacheContext branches, de-duplicated by the digest
+// of the projected state, within a node budget.
+func bfs(lg *sim.Log, run string, root, par int, w0 *World, acts []Act, depth, maxNodes int) {
+	seen := map[string]bool{digestOf(w0.Project()): true}
+	type item struct {
+		w    *World
+		node int
+		d    int
+	}
+	queue := []item{{w0, par, 0}}
+	maxNodes += len(lg.Nodes)
+	for len(queue) > 0 && len(lg.Nodes) < maxNodes {
+		it := queue[0]
+		queue = queue[1:]
+		if it.d >= depth {
+			continue
+		}
+		for _, a := range acts {
+			if len(lg.Nodes) >= maxNodes {
+				break
+			}
+			c := it.w.Fork()
+			rs := c.Do(a)
+			st := c.Project()
+			id := lg.Add(it.node, run, a.A, a.Args(), rs, map[string]interface{}{"s": st, "root": root})
+			if dg := digestOf(st); !seen[dg] {
+				seen[dg] = true
+				queue = append(queue, item{c, id, it.d + 1})
+			}
+		}
+	}
+}
+
+// exploreEsm: bounded exploration of the emergency-shutdown flows of the CDP app on the real code. Prepared state: one vault
+// seized by the first generation (V1 auction with a partial bid), one seized by the second generation (V2 auction with a
+// partial bid), one healthy vault, one stable-mint vault, and the ESM deposit target reached. Then every sequence of the
+// action instances below (execute, blocks before / after the cool-off end, V1 price update, withdraw in the cool-off,
+// redemption, late bids) up to `depth`.
+func exploreEsm(lg *sim.Log, seed int64, depth, maxNodes int) {
+	w0 := Setup(exploreConfig())
+	run := fmt.Sprintf("exploreesm:%d", seed)
+	root := rootNode(lg, w0, run)
+	p1, p2, p3 := w0.Prods[0].ID, w0.Prods[1].ID, w0.Prods[2].ID
+	par := root
+	for _, a := range []Act{
+		{A: "Create", U: "u1", P: p1, X: 30, Y: 40}, {A: "Create", U: "u2", P: p1, X: 15, Y: 20}, {A: "Create", U: "u1", P: p2, X: 20, Y: 30},
+		{A: "SCreate", U: "u2", P: p3, X: 20}, {A: "Price", D: "ucm", Y: 1, On: true},
+		{A: "V1Liquidate", U: "u2", V: 1}, {A: "Liquidate", U: "u1", V: 2},
+		{A: "V1Bid", U: "u2", V: 1, D: "ucm", X: 10}, {A: "Bid", U: "u1", V: 1, D: "ust", X: 5},
+		{A: "EsmDeposit", U: "u1", X: 50},
+	} {
+		rs := w0.Do(a)
+		par = lg.Add(par, run, a.A, a.Args(), rs, map[string]interface{}{"s": w0.Project(), "root": root})
+	}
+	acts := []Act{
+		{A: "EsmExecute", U: "u1"}, {A: "Block", Y: 5}, {A: "Block", Y: 30}, {A: "V1Tick"},
+		{A: "Withdraw", U: "u1", P: p2, V: 3, X: 2}, {A: "EsmRedeem", U: "u2", X: 10}, {A: "EsmRedeem", U: "u1", X: 1000},
+		{A: "V1Bid", U: "u2", V: 1, D: "ucm", X: 20}, {A: "Bid", U: "u2", V: 1, D: "ust", X: 100},
+		{A: "Deposit", U: "u1", P: p2, V: 3, X: 5}, {A: "V1Liquidate", U: "u2", V: 3}, {A: "Price", D: "uat", Y: 1, On: true},
+	}
+	bfs(lg, run, root, par, w0, acts, depth, maxNodes)
 }
